@@ -115,7 +115,7 @@ fn fixed_messages(addr: u16) -> Vec<RefMsg> {
 }
 
 pub fn run(ctx: &Ctx) -> Outcome {
-    let n_random = ctx.size(2_000_000, 10_000_000);
+    let n_random = ctx.size(2_000_000, 100_000_000);
     let rand_shards = 32usize;
     let mut report = run_sharded(ctx, 256 + 1 + rand_shards, |shard, rep| {
         let mut inj = Injective { seen: HashMap::new() };
